@@ -523,9 +523,48 @@ def c01(ctx):
     ctx.rule = rule + (" A second batch uses generator mode c02 (repeated metavariables with identical, almost identical and different "
                        "fillers), a third one mode c09 (chains of changes in which a later change matches only what an earlier one produced).")
 
+def c02_generated_sites(ctx):
+    """A later change of the patch binds its metavariables at several sites inside code that an earlier change generated
+    (nodes that never had a place in the file): what is bound at one site must not show at another, and a repeated
+    metavariable still needs identical code."""
+    rng = random.Random(ctx.seed + 202)
+    fillers = ["lo", "hi", "n + 1", "f(x)", "a[i]", "k", "mx", "p.q", "\"s\"", "len(v)", "up", "dn"]
+    names = ["swap", "pair", "wrap", "both", "conv", "mk", "box", "join", "lift"]
+    cases = []
+    for k in range(24 if ctx.tier == "quick" else 600):
+        F, G, W, U = rng.sample(names, 4)
+        a, b, c = rng.sample(fillers, 3)
+        if k % 3 == 0:
+            b = rng.choice([f for f in fillers if len(f) == len(a) and f != a] or [b])    # same extent once generated
+        shape = k % 5
+        p1 = f"@@\nvar x, y expression\n@@\n-{F}(x, y)\n+{G}({W}(y), {W}(x))\n"
+        if shape == 0:
+            p2 = f"@@\nvar v expression\n@@\n-{W}(v)\n+v\n"
+        elif shape == 1:
+            p2 = f"@@\nvar v expression\n@@\n-{W}(v)\n+{U}(v, v)\n"
+        elif shape == 2:
+            p2 = f"@@\nvar v expression\n@@\n-{G}({W}(v), {W}(v))\n+{U}(v)\n"                  # only where both are the same code
+        elif shape == 3:
+            p1 = f"@@\nvar x, y expression\n@@\n-{F}(x, y)\n+{G}({W}(y), {W}(x), {W}(y))\n"
+            p2 = f"@@\nvar v, w expression\n@@\n-{G}({W}(v), w, {W}(v))\n+{U}(v, w)\n"
+        else:
+            p2 = f"@@\nvar v identifier\n@@\n-{W}(v)\n+{U}(v)\n"                               # identifiers only
+        src = (f"package a\n\nfunc g() {{\n\t{F}({a}, {b})\n\tt := {F}({b}, {a})\n\t{F}({a}, {a})\n\t{F}({c}, {F}({a}, {b}))\n"
+               f"\tuse(t, {W}({c}))\n}}\n")
+        how = [[p1, p2], [p1 + "\n" + p2]][k % 2]
+        cases.append({"id": f"gensites{k}", "patches": how, "src": src})
+    res = run_engine_batch(ctx, ["-inputs", write_jsonl(ctx, cases)], "c02sites")
+    ctx.count("generated_sites_cases", len(res))
+    engine_projection(ctx, res, {"decisions", "where", "content"})
+    cli_projection(ctx, res, {"decisions", "where", "content"}, len(res))
+
 @prop("C02")
 def c02(ctx):
     engine_family(ctx, "c02", {"decisions", "where"})
+    rule = ctx.rule
+    c02_generated_sites(ctx)
+    ctx.rule = rule + (" A directed family runs two changes of which the second binds its metavariables at several sites inside "
+                       "code the first one generated (equal and different fillers, also of equal length; as two patch files and as one).")
 
 # '+' sides whose tokens must reach the output byte for byte: blanks at the end of the lines of a raw string, the marker
 # characters of the patch language inside literals, every spelling of a literal
@@ -604,7 +643,10 @@ def c03(ctx):
 
 @prop("C04")
 def c04(ctx):
-    engine_family(ctx, "c04", {"status", "where", "content"})
+    res = engine_family(ctx, "c04", {"status", "where", "content"})
+    # which '+' elision reproduces which '-' elision is decided by where each is recorded to stand in the patch file:
+    # the front end's chain from the bytes of the patch to those places, against the model's
+    split_tie(ctx, [{"id": r[0].get("id"), "patch": p} for r in res for p in r[0].get("patches", [])])
 
 @prop("C05")
 def c05(ctx):
@@ -2450,6 +2492,75 @@ def run_front(ctx, fcases):
         return []
     return list(zip(fcases, impl, model))
 
+def split_tie(ctx, fcases):
+    """The '-' and '+' versions of every change (splitPatch: bytes and line positions) and the place recorded for every
+    elision, implementation against the model's chain from the bytes of the patch (Sec.split, Sec.splitPatch, the finder
+    and the rewriter on go/scanner's tokens, posAdjuster, Version.positionIn)."""
+    if not fcases:
+        return
+    d = ctx.scratch("split")
+    p = os.path.join(d, "in.jsonl")
+    seen = set()
+    uniq = []
+    for c in fcases:
+        if c["patch"] not in seen:
+            seen.add(c["patch"])
+            uniq.append(c)
+    with open(p, "w") as f:
+        for i, c in enumerate(uniq):
+            f.write(json.dumps({"id": f"s{i}", "patch": c["patch"]}) + "\n")
+    r = run([ctx.harness, "split", "-inputs", p, "-out", d], timeout=1800)
+    if r.returncode != 0:
+        ctx.broken("harness", "zzverif split failed: " + r.stderr[-2000:])
+        return
+    with open(os.path.join(d, "split.cases")) as fin:
+        m = subprocess.run([ctx.driver], stdin=fin, stdout=subprocess.PIPE, stderr=subprocess.PIPE, text=True, timeout=1800)
+    impl = open(os.path.join(d, "split.impl")).read().splitlines()
+    model = m.stdout.splitlines()
+    shutil.rmtree(d, ignore_errors=True)
+    if len(impl) != len(model) or len(impl) != len(uniq):
+        ctx.broken("driver", f"split: line counts differ impl={len(impl)} model={len(model)} cases={len(uniq)} {m.stderr[-300:]}")
+        return
+    bad = 0
+    for c, a, b in zip(uniq, impl, model):
+        ctx.evaluations += 1
+        ctx.count("split_patches")
+        # model only: on how many versions the hypothesis of elision_recorded_where_its_dots_stand (AugsOK) holds / fails
+        mh = re.search(r" \(hyp (\d+) (\d+)\)\)$", b)
+        if mh:
+            ctx.count("split_versions_augs_in_order", int(mh.group(1)))
+            if int(mh.group(2)):
+                ctx.count("split_versions_augs_not_in_order", int(mh.group(2)))
+            b = b[:mh.start()] + ")"
+        if a.endswith(" (splitunavailable))"):
+            a = a[:-len(" (splitunavailable))")] + ")"
+            ctx.count("split_versions_cut_by_the_harness")
+        if a == b:
+            ctx.count("split_agree" + ("_section_error" if "(sectionerr)" in a else ""))
+            if "(dots (c" in a and "(m)" not in a.split("(dots", 1)[1]:
+                ctx.count("split_patches_with_elisions")
+            continue
+        ia, ib = a.find(" (dots"), b.find(" (dots")
+        if ia < 0 or ib < 0 or a[:ia] != b[:ib]:
+            bad += 1
+            if bad <= 3:
+                ctx.violation("the '-' and '+' versions of a change are not what the lines of the patch say: a line that starts with '-' "
+                              "belongs to the '-' version without that character, one that starts with '+' to the '+' version, every other "
+                              "line to both as it is, each recorded at the place of its text in the patch file",
+                              {"input": {"patches": [c["patch"]]}, "implementation": a[:1500], "model": b[:1500]})
+            continue
+        da, db = a[ia:], b[ib:]
+        if da.startswith(" (dots rejected") or da.startswith(" (dots panic"):
+            ctx.count("split_patch_rejected")
+            continue
+        bad += 1
+        if bad <= 3:
+            ctx.violation("an elision of the patch is recorded at another place than the one where its \"...\" stands in the patch file "
+                          "(line and column of every elision of each version of each change, implementation against the model's "
+                          "chain from the bytes of the patch): which '+' elision belongs to which '-' elision is decided by these places",
+                          {"input": {"patches": [c["patch"]]}, "implementation": da[:1500], "model": db[:1500]})
+    ctx.extra["split_disagreements"] = bad
+
 def split_patch_text(p):
     """-> (desc lines, header line, meta lines, body lines) of a single-change patch"""
     lines = p.rstrip("\n").split("\n")
@@ -2624,6 +2735,7 @@ def c19(ctx):
     c19_several_faults(ctx, random.Random(ctx.seed + 19))
     fcs = front_cases_with_faults(ctx, rng, n)
     res = run_front(ctx, fcs)
+    split_tie(ctx, fcs)
     cli_budget = 25 if ctx.tier == "quick" else 400
     for c, impl, model in res:
         ctx.evaluations += 1
@@ -2973,6 +3085,7 @@ def c13(ctx):
             lines = lines + sep + l2
             wants.append(w2)
         fcs.append({"id": f"d{i}", "patch": "\n".join(lines) + "\n", "want": wants})
+    split_tie(ctx, fcs)
     for c, impl, model in run_front(ctx, fcs):
         ctx.evaluations += 1
         sx = parse_sx(impl)
@@ -3440,6 +3553,16 @@ def c11_grouped(ctx, cases):
     rng = random.Random(ctx.seed + 11)
     picked = [c for c in cases if re.search(r"^[-+ ]import \w+ ", c["patches"][0], re.M) and re.search(r'^\s*(x\w+|alias) "', c["src"], re.M)]
     picked = picked[: (60 if ctx.tier == "quick" else 1500)]
+    # always: an import whose local name is a metavariable, re-added under that name (and one added next to it), in files
+    # that use three different local names
+    picked = [
+        {"id": "dg0", "patches": ["@@\nvar n identifier\nvar x expression\n@@\n-import n \"example.com/old/api\"\n+import n \"example.com/new/api\"\n\n-n.Do(x)\n+n.DoContext(ctx, x)\n"],
+         "src": "package a\n\nimport xapi \"example.com/old/api\"\n\nfunc f() {\n\txapi.Do(1)\n}\n"},
+        {"id": "dg1", "patches": ["@@\nvar n identifier\nvar x expression\n@@\n import n \"example.com/old/api\"\n+import \"example.com/extra\"\n\n-n.Do(x)\n+extra.Wrap(n.Do(x))\n"],
+         "src": "package a\n\nimport (\n\t\"fmt\"\n\n\txapi \"example.com/old/api\"\n)\n\nfunc f() {\n\tfmt.Println(xapi.Do(1))\n}\n"},
+        {"id": "dg2", "patches": ["@@\nvar n identifier\n@@\n-import n \"example.com/old/api\"\n+import n \"example.com/v2/api\"\n\n n.Client\n"],
+         "src": "package a\n\nimport alias \"example.com/old/api\"\n\nvar c alias.Client\n"},
+    ] + picked
     def rename(src, k):
         names = sorted(set(re.findall(r'^\s*(?:import\s+)?(x\w+|alias) "', src, re.M)))
         for nm in names:
@@ -4076,6 +4199,9 @@ def c17_astdiff_tie(ctx, jobs, untouched=None):
         if sl is not None and tw is not None:
             # the hypotheses of untouched_elements_paired_with_themselves on the declarations of this step
             ctx.count("astdiff_decls_in_place_without_twins" if (sl[0] == "1" and tw[0] == "0") else "astdiff_decls_length_changed_or_twins")
+        npr = sx_field(sb_[2:], "noposregions")
+        if npr is not None and npr[0] != "0":
+            ctx.count("astdiff_steps_with_a_region_starting_at_NoPos")
         sf = sx_field(sb_[2:], "sepfail")
         if sf is not None:
             ctx.count("astdiff_separation_holds" if sf[0] == "0" else "astdiff_separation_fails")
